@@ -75,7 +75,7 @@ def run(tier, seed):
             rid = "%s/%s/%d%d" % (c["id"], call["fn"], call["ignore_include"], call["strip_comments"])
             runrecs.append({"id": rid, "kind": "run", "org": False, "env": e2, "obs": pp.observe_pp(rr)})
             by_id[rid] = {"files": h["files"], "call": {k: call[k] for k in ("fn", "ignore_include", "strip_comments")}}
-        apirecs.append({"id": c["id"], "calls": calls, "c15": False})
+        apirecs.append({"id": c["id"], "kind": "api", "calls": calls, "c15": False})
         by_id[c["id"]] = {"files": h["files"]}
     # ---- sv / lib families
     srcs = []
@@ -108,7 +108,7 @@ def run(tier, seed):
         for call, rr in zip(h["calls"], res["results"]):
             calls.append({"fn": call["fn"], "fam": "sv" if "sv" in call["fn"] else "lib", "ign": call["ignore_include"], "strip": False,
                           "inc": call["allow_incomplete"], "res": tree.result_summary(rr)})
-        apirecs.append({"id": h["id"], "calls": calls, "c15": True})
+        apirecs.append({"id": h["id"], "kind": "api", "calls": calls, "c15": True})
     vlib.log("C20: %d pp inputs x 8 calls, %d parse inputs x 16 calls" % (len(cases), len(pcases)))
     bad, stats = vlib.tlc_validate("Api_Trace.tla", "Api_Trace.cfg", apirecs, tag="c20")
     v.add_tv("Api_Trace", stats, len(apirecs))
